@@ -24,6 +24,10 @@ TRUSTED = [
     "correspondence (flags bit-exact, mute within 2^-36 of the exact rational value)",
     "NumPy promotion rules as modelled: Python-float operands (0.98, fs, v_per_sec) are rounded to the "
     "array dtype; np.mean of booleans divides in float64; comparisons between dtypes are exact",
+    "metadata layer (read_meta_data, _get_max_int_from_meta, IMRO scanner, _conversion_sample2v_from_meta, "
+    "Reader.sample2volts): C09's model coq/C09/Model.v, imported, run on the very .meta text; the float32/float64 "
+    "arithmetic of sample2volts/range_volts is modelled in coq/C16/Range.v (float('m.dd') = one correctly rounded "
+    "division of exact integers) and validated bit-exactly by the correspondence",
     "scipy.signal.windows.cosine(M) enters the run instance as data (the float64 taps of the very call) "
     "and the theorems as a list of taps with hypotheses 0 <= w_k and, for odd M, centre tap = 1",
     "scipy.signal.convolve(mode='same') is modelled as the centred slice of the full linear convolution "
@@ -71,6 +75,7 @@ class Case:
     reader = False
 
     def __init__(self, data, mv_kind, mv_vals, vps, fs, prop, M, origin, calls=1):
+        self.layout = (int(np.asarray(data).size) + int(M)) % 2      # deterministic mix of memory layouts
         self.calls = calls          # > 1: the SAME max_voltage object is passed to that many consecutive calls
         self.data = np.ascontiguousarray(data)
         self.mv_kind, self.mv_vals = mv_kind, [float(v) for v in mv_vals]
@@ -159,8 +164,9 @@ def impl_observe(c):
         try:
             mv = c.mv_arg()
             keep = np.array(mv, copy=True) if isinstance(mv, np.ndarray) else None
-            for _ in range(c.calls):
-                data = c.data.copy()
+            for k in range(c.calls):
+                # C-contiguous copy, or the transposed view of an [ns, nc] array (what destripe passes)
+                data = c.data.copy() if (c.layout + k) % 2 == 0 else np.ascontiguousarray(c.data.T).T
                 fl, mu = saturation(data, mv, v_per_sec=c.vps, fs=c.fs, proportion=c.prop,
                                     mute_window_samples=c.M)
                 if not np.array_equal(data, c.data):
@@ -168,11 +174,7 @@ def impl_observe(c):
             if keep is not None and not (keep.shape == mv.shape and np.array_equal(keep, mv)):
                 side.append(("caller_range_modified", "saturation modified the caller's max_voltage array "
                              "(%r -> %r)" % (keep.ravel()[:3].tolist(), np.asarray(mv).ravel()[:3].tolist())))
-        except ValueError as e:
-            return ("raise", e)
-        except Exception as e:          # the reader path: any exception is an observation, not a harness crash
-            if not c.reader:
-                raise
+        except Exception as e:          # any exception is an observation (the oracle decides), not a harness crash
             return ("raise", e)
     return ("ok", np.asarray(fl), np.asarray(mu), side)
 
@@ -877,8 +879,9 @@ def run(ctx):
         dist["nc_max"], dist["ns_max"] = max(dist["nc_max"], nc), max(dist["ns_max"], ns)
         if c.mv_kind == "badlen":
             dist["raises"] += obs[0] == "raise"
-            if obs[0] != "raise":
-                ctx.fail("saturation accepted a max_voltage of incompatible length", c.describe(), c.tags("raises"))
+            if obs[0] != "raise" or not isinstance(obs[1], ValueError):
+                ctx.fail("max_voltage of incompatible length: expected NumPy's broadcast ValueError, got %r"
+                         % (obs[1] if obs[0] == "raise" else "a result",), c.describe(), c.tags("raises"))
             continue
         if c.mv_kind == "oddbroadcast":     # one data row against k ranges: model only
             continue
@@ -909,8 +912,12 @@ def run(ctx):
              "(resp. at/above the slew limit) is chosen one below / at / above proportion*nc, the remaining "
              "channels sit exactly on the boundary, one ulp inside it, or low; float32 and float64 data; scalar, "
              "array, list, int, float32 ranges; windows 1..12; flag patterns isolated / runs at both ends / "
-             "adjacent runs; plus random mixed-rule arrays, tiny arrays over a value lattice and special cases "
-             "(inf, negative proportion, broadcasting).  Each case runs the real ibldsp.voltage.saturation, the "
+             "adjacent runs; plus random mixed-rule arrays, tiny arrays over a value lattice, special cases "
+             "(inf, negative proportion, broadcasting), batch sequences re-using one range array over 2-4 calls, and "
+             "reader cases: .meta files synthesised from the fixtures (NP1 3A/3B AP and LF, NPultra with non-uniform "
+             "IMRO gains in 7 layouts, NP2.1/2.4, nidq) opened with spikeglx.Reader, max_voltage = "
+             "range_volts[:nc-nsync], fs = Reader.fs, channels driven to 0.5/0.90/0.97/0.99/1.0/1.7/3.5 x the full "
+             "scale of one gain group, oracle in exact rationals with full scale = imAiRangeMax/gain.  Each case runs the real ibldsp.voltage.saturation, the "
              "property oracle, a mirrored-input metamorphic check and the Coq model (flags bit-exact, mute "
              "within 2^-36).  non-trivial = at least one flagged and one unflagged sample; distinct by content",
         samples=samples, evaluations=len(cases), distinct_nontrivial=len(nontrivial),
